@@ -216,6 +216,10 @@ func Decide(env *Env, cf *ClaimsFile, res *Result, replay func(o *Obl)) *Verdict
 	// FAILED-OBLIGATION / VIOLATION lines and replay files, the rest are counted in one summary line.
 	const maxReplays, maxListed = 12, 40
 	nReplays, nSilent := 0, 0
+	// proof-tier and sweep obligations first: they name the function and clause that broke
+	sort.SliceStable(v.Claimed, func(i, j int) bool {
+		return (v.Claimed[i].Tier != "bounded") && (v.Claimed[j].Tier == "bounded")
+	})
 	for _, o := range v.Claimed {
 		if o.Status == Discharged {
 			continue
